@@ -76,4 +76,9 @@ def frame_seeds(rng, n_edge=5):
     for lat in (-89.995, -89.9, -80, -45, -10, 0, 33, 60, 85, 89.9, 89.993, 89.9995):
         for lon in (180.0, -180.0, 179.9999999, -179.9999999, 179.5, -179.5, 87.0, 86.9999999, 87.0000001, 86.5, 87.5):
             out.append((lon, float(lat)))
+    # landmark meridians of the longitude arithmetic: 0, +-90, -93 (the offset) - cells hugging them at the finest levels
+    for lat in (-77.7, -41.3, -12.9, 0.0, 7.1, 23.4, 38.6, 51.2, 66.6, 81.9):
+        for lon in (0.0, 90.0, -90.0, -93.0):
+            for eps in (0.0, 2e-8, -2e-8, 6e-8, -6e-8, 4e-7):
+                out.append((lon + eps, lat + eps * 3))
     return out
